@@ -21,6 +21,16 @@ fn closed(plan: Plan, universe: u8, tier: Tier) -> Box<dyn Config> {
     Box::new(BfsConfig::new(label, MapHarness::<TKey, TVal>::new(c), lim(tier, None)))
 }
 
+/// Closed search (core alphabet) with the wrapper-level API probes in every state.
+fn closed_wrappers<K: KeyT, V: ValT>(plan: Plan, universe: u8, tier: Tier) -> Box<dyn Config> {
+    let mut c = MapCfg::new(plan, universe);
+    c.max_buckets = if super::width() == 16 { 64 } else { 32 };
+    c.alphabet = Alphabet::core();
+    c.probes = vec![Probe::Wrappers];
+    let label = format!("{}-{}-wrappers", c.label(), K::NAME);
+    Box::new(BfsConfig::new(label, MapHarness::<K, V>::new(c), lim(tier, None)))
+}
+
 /// Closed search with the state-changing core alphabet (reaches deeper tables).
 fn closed_core(plan: Plan, universe: u8, tier: Tier, need_inplace: bool) -> Box<dyn Config> {
     let mut c = MapCfg::new(plan, universe);
@@ -90,6 +100,8 @@ pub fn configs(tier: Tier) -> Vec<Box<dyn Config>> {
     let q = tier == Tier::Quick;
     let mut v: Vec<Box<dyn Config>> = Vec::new();
     v.push(Box::new(super::rehash::RehashGrammar { tier }));
+    v.push(closed_wrappers::<TKey, TVal>(Plan::Zero, if q { 9 } else { 12 }, tier));
+    v.push(closed_wrappers::<PKey, PVal>(Plan::Cluster(2), if q { 6 } else { 8 }, tier));
     if q {
         v.push(closed(Plan::Zero, if sse2 { 12 } else { 11 }, tier));
         v.push(closed(Plan::Seq, 5, tier));
